@@ -4,6 +4,7 @@ import (
 	"bytes"
 	"embed"
 	"fmt"
+	"go/build/constraint"
 	"os"
 	"reflect"
 	"strings"
@@ -73,7 +74,14 @@ func newReturnsFunc(returns string, e ErrorRender) (ErrorRender, error) {
 }
 
 func commentFunc(s string) (string, error) {
-	return strings.ReplaceAll(strings.TrimRight(s, "\n"), "\n", "\n// "), nil
+	lines := strings.Split(strings.TrimRight(s, "\n"), "\n")
+	for i, line := range lines {
+		// gofmt moves a "+build ..." comment line to the top of the file as its build constraint: keep it text
+		if constraint.IsPlusBuild("//" + line) {
+			lines[i] = strings.Replace(line, "+build", `\+build`, 1)
+		}
+	}
+	return strings.Join(lines, "\n// "), nil
 }
 
 func titleFunc(s string) (string, error) {
